@@ -52,6 +52,8 @@ FORMULAS = [
     "y ~ 0 + x:s:h:g2 + (0 + s:h | g)",
     "y ~ bs(x, knots=kn_u) + C(k, levels=lv_k):z",  # kn_u: the caller's own, unsorted, array
     "y ~ ni + scale(ni):h + (ni | g2)",  # ni: nullable Int64
+    "y ~ center(arr_n) + scale(arr_n):h + x",  # arr_n: the caller's own float array, as long as the frame it builds on
+    "y ~ I(np.ravel(arr_n) / 10) + {np.asarray(arr_n) - 1} + s",
     "y ~ x + C(k) + (1 | k)",  # k holds the same numbers as int in some frames and as float in frame 1: labels k[3] / k[3.0]
 ]
 MODES = ["error", "warning", "silent"]
@@ -81,7 +83,9 @@ def make_ns(frame_key):
     """The namespace handed to design_matrices: the SAME names are bound to different objects
     depending on the frame the design is built on."""
     j = int(frame_key[-1]) % 2
-    return {"lv_k": list(LV_K), "hlp": HELPERS[j], "fun": (fun_a, fun_b)[j], "kn_u": np.array([0.4, -0.6, 0.1])}
+    n = {"0": 18, "1": 25, "2": 9, "3": 14}[frame_key[-1]]
+    return {"lv_k": list(LV_K), "hlp": HELPERS[j], "fun": (fun_a, fun_b)[j], "kn_u": np.array([0.4, -0.6, 0.1]),
+            "arr_n": np.linspace(-2.0, 5.0, n) ** 2}
 
 
 def _values(ns):
@@ -175,6 +179,7 @@ def make_frames():
         # nullable dtypes, one used by a formula and one never used (with a missing value): dtypes and pd.NA stay the caller's
         df["ni"] = pd.array((np.arange(n) * 3) % 7, dtype="Int64")
         df["nu"] = pd.array([None if r == 2 else float(r) for r in range(n)], dtype="Float64")
+        df[2019] = np.arange(n)  # a column whose label is not a string (never used by a formula)
         if j == 1:
             df["k"] = df["k"].astype(float)
         if j == 1:
